@@ -454,7 +454,35 @@ def run(ctx):
     boxes = []
     stream_boxes(ctx, rng, 40 if quick else 300, boxes)
     leaves = stream_invariance(ctx, rng, 20 if quick else 150)
-    stream_covers(ctx, leaves + boxes)
+    # many more boxes for the (cheap, solver-free) comparison of the cover helper; failing-input search on the disagreeing ones
+    extra = [gen_one_negative(rng) for _ in range(250 if quick else 2000)]
+    before = len(ctx.disagreements)
+    stream_covers(ctx, leaves + boxes + extra)
+    for d in ctx.disagreements[before:before + 12]:
+        leaf, box = d['case']['leaf'], d['case']['box']
+        if box is None:
+            continue
+        # make the instance comfortably positive on the box (raise the constant) and ask for the certificate
+        lo, hi = lipschitz_enclosure(leaf, box)
+        zero = ['0'] * leaf['n']
+        if zero not in leaf['alpha']:
+            continue
+        k = leaf['alpha'].index(zero)
+        for bump in (0, 1, 4):
+            g = dict(leaf, c=list(leaf['c']))
+            g['c'][k] = frac_str(F(leaf['c'][k]) + F(math.ceil(max(0.0, -lo))) + bump + (1 if lo <= 0 else 0))
+            glo, ghi = lipschitz_enclosure(g, box)
+            if glo <= 1e-3:
+                continue
+            s_, v_ = solve_feas(g, box)
+            ctx.count('stream:box-targeted')
+            if s_ == 'solved' and v_ == -math.inf:
+                tags = []
+                ctx.violation('exactness: a one-negative-term signomial with min over the box in [%.6g, %.6g] is reported infeasible by sage_feasibility'
+                              % (glo, ghi), {'stream': 'box', 'leaf': g, 'box': box, 'enclosure': [glo, ghi]}, tags=tags)
+                break
+        if len(ctx.violations) >= 3:
+            break
     stream_monotone(ctx, rng, 10 if quick else 80)
     if (not ctx.lean.ok or ctx.disagreements) and not ctx.violations:
         common.broken_report(ctx, 'closed-form, enclosure and metamorphic audits found no failing input')
